@@ -9,6 +9,7 @@ import (
 	"fmt"
 	"io"
 	"net"
+	"strings"
 	"sync"
 	"time"
 
@@ -135,10 +136,11 @@ func LookupCNAME(host string) (string, error) {
 	if CNAMEErr != nil {
 		return "", CNAMEErr
 	}
-	if c, ok := cnames[host]; ok {
+	if c, ok := cnames[strings.TrimSuffix(host, ".")]; ok {
 		return c, nil
 	}
-	return host + ".", nil
+	// the canonical name is fully qualified: exactly one trailing dot, also when the query already had one
+	return strings.TrimSuffix(host, ".") + ".", nil
 }
 
 type addr struct{ network, s string }
